@@ -284,6 +284,9 @@ func (r *PhaseReconciler) teardownPhaseObject(
 		r.ownerStrategy.RemoveOwner(owner.ClientObject(), object)
 		objectPatch := map[string]interface{}{
 			"metadata": map[string]interface{}{
+				// Make the patch conditional on the version we inspected,
+				// so owners added or changed concurrently are not overwritten.
+				"resourceVersion": currentObj.GetResourceVersion(),
 				"labels": map[string]interface{}{
 					constants.DynamicCacheLabel: nil,
 				},
